@@ -312,4 +312,36 @@ def support(rng, tier):
             b = noise.cov_from_unbalanced(ds, 'cond', method=m)
             ok = bool(np.allclose(a, b, rtol=1e-9, atol=1e-12, equal_nan=True))
             res.append((f'measurements_eq_unbalanced_{m}_{rep}', ok, dict(C=int(C), R=int(R), p=int(p), method=m)))
+    # every layout of a balanced design -- conditions in contiguous ascending blocks, descending blocks, interleaved -- gives the
+    # estimate of the shuffled design and leaves the dataset as it was (seeded change C14-m3: a view of the measurements for
+    # grouped designs, de-meaned in place)
+    for rep in range(3 if tier == 'quick' else 20):
+        C, R, p = int(rs.randint(2, 5)), int(rs.randint(2, 4)), int(rs.randint(2, 4))
+        base = rs.randint(-20, 20, size=(C, R, p)) / 4.0 + 3.0 * np.arange(C)[:, None, None]
+        layouts = dict(ascending=np.repeat(np.arange(C), R), descending=np.repeat(np.arange(C)[::-1], R), interleaved=np.tile(np.arange(C), R),
+                       strings=np.repeat(np.array(['e', 'c', 'a', 'zz', 'b'][:C]), R))
+        ref = None
+        for lname, labs in layouts.items():
+            uniq = list(dict.fromkeys(labs.tolist()))
+            cnt = {u: 0 for u in uniq}
+            X = np.zeros((C * R, p))
+            for i, l in enumerate(labs.tolist()):
+                X[i] = base[uniq.index(l), cnt[l]]
+                cnt[l] += 1
+            for fn in ('cov_from_measurements', 'prec_from_measurements'):
+                ds = rsatoolbox.data.Dataset(X.copy(), obs_descriptors={'cond': labs})
+                try:
+                    out = np.asarray(getattr(noise, fn)(ds, 'cond', method='diag'))
+                except Exception as e:
+                    res.append((f'layout_{lname}_{fn}_{rep}', False, dict(layout=lname, labels=labs.tolist(), raised=repr(e))))
+                    continue
+                unchanged = bool(np.array_equal(ds.measurements, X))
+                if fn == 'cov_from_measurements':
+                    ref = out if ref is None else ref
+                    same = bool(np.allclose(out, ref, rtol=1e-9, atol=1e-12))
+                else:
+                    same = True
+                res.append((f'layout_{lname}_{fn}_{rep}', unchanged and same,
+                            dict(layout=lname, labels=labs.tolist(), function=fn, measurements_unchanged=unchanged,
+                                 same_estimate_as_other_layouts=same, C=C, R=R, p=p)))
     return res
